@@ -39,6 +39,8 @@ const (
 	c20VWrongLeaf
 	c20VNull
 	c20VUnknownKey
+	c20VEntryEmptyList // array-only sections: cluster list + a node entry that sets an EMPTY list
+	c20VEntryNoList    // ... the same configuration, the entry does not set the list at all (differs from the former only in nil vs empty)
 	c20NumV
 )
 
@@ -120,6 +122,14 @@ func c20Variants(s *c20Section) []c20Variant {
 	vs[c20VNull] = c20Variant{Name: "null", Class: "good", Text: "null", Raw: nil}
 	vs[c20VNull].Raw = map[string]any{}
 	vs[c20VUnknownKey] = c20GoodVariant("unknown-key", map[string]any{"zzUnknownKey": map[string]any{"a": 1}})
+	if arrOnly {
+		a := s.Leaves[0]
+		vs[c20VEntryEmptyList] = c20GoodVariant("entry-sets-empty-list", c20SectionObj(s, [3]map[string]any{tree(a, a.val(0)), tree(a, []any{}), nil}, [2]int{0, 3}))
+		vs[c20VEntryNoList] = c20GoodVariant("entry-without-list", c20SectionObj(s, [3]map[string]any{tree(a, a.val(0)), {}, nil}, [2]int{0, 3}))
+	} else { // (no such pair for the other sections: duplicates of "{}" that the focus parts skip)
+		vs[c20VEntryEmptyList] = c20Variant{Name: "n/a", Class: "skip"}
+		vs[c20VEntryNoList] = c20Variant{Name: "n/a", Class: "skip"}
+	}
 	return vs
 }
 
@@ -448,6 +458,9 @@ func c20HistParts(env *mc.Env) map[string]func() *mc.BFS {
 			var events []c20Event
 			others := []int{c20VAbsent, c20VP1, c20VP2}
 			for v := 0; v < c20NumV; v++ {
+				if vars[fi][v].Class == "skip" {
+					continue
+				}
 				for _, o := range others {
 					ev := c20Event{Name: fmt.Sprintf("%s=%s,others=%s", fs.Name, vars[fi][v].Name, vars[fi][o].Name)}
 					for i := range secs {
